@@ -12,7 +12,8 @@ from harness import util
 THEOREMS = ['C14_scan_sequential', 'C14_repeated_iter', 'C14_filters_in_order', 'C14_trajectory_frames',
             'C14_nested_scan_eq_scan', 'C14_nested_scan_eq_scan_noxs', 'C14_nested_accepts_spec',
             'C14_nested_scan_rejects', 'C14_accumulate_is_sum', 'C14_dfi_formula', 'C14_dfi_fixed_point',
-            'C14_time_reversed', 'C14_hyps_satisfiable']
+            'C14_time_reversed', 'C14_hyps_satisfiable',
+            'C14_model_is_source']
 LEVEL = 'proof'
 LEVEL_TEXT = ('machine-checked theorems (Coq) for every carry/input/output type, every step function, every '
               '(outer, inner, start_with_input), every filter list, every factorisation of the scan length and every '
